@@ -278,9 +278,19 @@ class TLSTransportWrapper:
         Args:
             data: Plaintext data to encrypt and send.
         """
-        if self.tls_protocol.tls_conn:
-            self.tls_protocol.tls_conn.send(data)
-            self.tls_protocol._flush_outgoing()
+        tls_conn = self.tls_protocol.tls_conn
+        if not tls_conn:
+            return
+        # send() may accept only part of the data (one TLS record, 16 KiB): keep
+        # going until all of it has been encrypted and handed to the TCP transport
+        sent = 0
+        try:
+            while sent < len(data):
+                sent += tls_conn.send(data[sent:])
+                self.tls_protocol._flush_outgoing()
+        except SSL.Error:
+            # TLS session is gone (shut down or failed): nothing more can be delivered
+            pass
 
     def close(self) -> None:
         """Initiate TLS shutdown and close."""
